@@ -21,7 +21,7 @@ def build(build, go_build, Stage, infra, repo, tier):
         if not os.path.exists(out):
             go_build(build, out, "./cmd/simrun")
         if ptrace_works(out):
-            stages.append(Stage("L3", out, "C17L3", env={"VERIF_SKIP_DET": "1"}))
+            stages.append(Stage("L3", out, "C17L3"))
         else:
             print("NOTE: ptrace is not usable here; L3 (instruction-level interleavings) skipped, verdict rests on L1+L2")
     return stages
